@@ -255,6 +255,27 @@ class BaseModel(SolverMixin, ModelInterface):
                 f'cannot exceed value of `max_iter` ({max_iter})'
             )
 
+        # Error if the period at `t` cannot accommodate the model's lags or
+        # leads (as in the Fortran engine): evaluating the equations would
+        # otherwise read from beyond the ends of the span, with negative indexes
+        # silently wrapping around to the opposite end
+        t_check = t
+        if t_check < 0:
+            t_check += len(self.span)
+
+        if t_check < self.lags:
+            raise IndexError(
+                f'Position `t` ({t}) leaves too few preceding periods '
+                f'for the lags in the current model instance ({self.lags})'
+            )
+
+        if t_check >= len(self.span) - self.leads:
+            raise IndexError(
+                f'Position `t` ({t}) leaves too few following periods '
+                f'for the leads in the current model instance ({self.leads}), '
+                f'with {len(self.span)} periods in span'
+            )
+
         # Optionally copy initial values from another period
         if offset:
             t_check = t
